@@ -77,3 +77,9 @@ impl KNNWeightFunction {
         }
     }
 }
+
+/// Verification hook: the neighbour weighting function.
+#[cfg(feature = "verif")]
+pub fn verif_calc_weights<T: RealNumber>(f: &KNNWeightFunction, distances: Vec<T>) -> Vec<T> {
+    f.calc_weights(distances)
+}
